@@ -25,6 +25,7 @@ RelayError(c) ==
   /\ alloc' = [alloc EXCEPT ![c] = NoAlloc]
   /\ perm'  = [perm EXCEPT ![c] = NoPerms]
   /\ chan'  = [chan EXCEPT ![c] = NoChans]
+  /\ UNCHANGED resv
   /\ out' = {}
 
 ServerClose ==
@@ -33,6 +34,7 @@ ServerClose ==
   /\ alloc' = [c \in Clients |-> DownAlloc]
   /\ perm'  = [c \in Clients |-> NoPerms]
   /\ chan'  = [c \in Clients |-> NoChans]
+  /\ resv'  = [c \in Clients |-> 0]
   /\ out' = {}
 
 LifeNext == (~Down /\ Next) \/ (\E c \in Clients : RelayError(c)) \/ ServerClose
@@ -65,6 +67,6 @@ ASSUME PrintT("META " \o ToJson([DefaultLife |-> DefaultLife, PermTO |-> PermTO,
                                  ListenFam |-> ListenFam, Clients |-> Clients, Users |-> Users,
                                  PeerPorts |-> PeerPorts, InboundMTU |-> InboundMTU, Extra |-> [ledger |-> "yes"]]))
 EmitEdge ==
-  PrintT("EDGE " \o ToJson([s |-> <<alloc, perm, chan>>, a |-> last', o |-> out', ev |-> EvDiff,
-                            t |-> <<alloc', perm', chan'>>]))
+  PrintT("EDGE " \o ToJson([s |-> <<alloc, perm, chan, resv>>, a |-> last', o |-> out', ev |-> EvDiff,
+                            t |-> <<alloc', perm', chan', resv'>>]))
 =============================================================================
